@@ -52,8 +52,14 @@ def gen_feature(rng, kind, n):
     elif kind == "disc":
         k = rng.randint(2, 14)
         support = sorted(rng.sample(range(-3, 30), k))
-        shape = rng.choice(["uniform", "zipf", "spike"])
-        if shape == "uniform":
+        shape = rng.choice(["uniform", "zipf", "spike", "zero"])
+        if shape == "zero":
+            # zero-inflated: a few rare negative values, 0 over-represented, a positive tail - 0 becomes a boundary
+            # and the largest quantile of a merged group (a falsy leader)
+            support = sorted(set([-2, -1, 0] + support[-max(2, k - 3):]))
+            k = len(support)
+            w = [0.2 if v < 0 else (2.0 * k if v == 0 else 1) for v in support]
+        elif shape == "uniform":
             w = [1] * k
         elif shape == "zipf":
             w = [1 / (i + 1) for i in range(k)]; rng.shuffle(w)
